@@ -249,7 +249,9 @@ def write_replay(prop, v, values, mod, minimised_tries):
     os.makedirs(os.path.join(VERIF, "replays"), exist_ok=True)
     res = one_run(mod, v["scenario"], replay=values)
     vv = res["violations"][0]
-    path = os.path.join(VERIF, "replays", f"{prop}-{v['seed']}.json")
+    rdir = os.environ.get("VERIF_REPLAY_DIR") or os.path.join(VERIF, "replays")
+    os.makedirs(rdir, exist_ok=True)
+    path = os.path.join(rdir, f"{prop}-{v['seed']}.json")
     tape = res["tape"]
     with open(path, "w") as f:
         json.dump({
@@ -472,9 +474,10 @@ def run_check(prop, tier, master, workers=None, runs_override=None):
         "wall_s": round(wall, 2),
         "violations": sum(len(vs) for vs in unknown),
     }
-    os.makedirs(os.path.join(VERIF, "evidence"), exist_ok=True)
-    with open(os.path.join(VERIF, "evidence", f"{prop}.json"), "w") as f:
-        json.dump(evidence, f, indent=1, default=str)
+    if not os.environ.get("VERIF_NO_EVIDENCE"):     # mutant runs must not clobber it
+        os.makedirs(os.path.join(VERIF, "evidence"), exist_ok=True)
+        with open(os.path.join(VERIF, "evidence", f"{prop}.json"), "w") as f:
+            json.dump(evidence, f, indent=1, default=str)
     print(f"{prop} {tier}: {runs} runs, {distinct} distinct non-trivial, "
           f"{evidence['coverage']['distinct_schedules']} schedules, "
           f"{len(known_hits)} known findings, "
@@ -495,6 +498,8 @@ def main(argv=None):
         os.chdir(VERIF)
         os.execve(sys.executable, [sys.executable, "-m", "sim.runner"] + argv, env)
     sys.path.insert(0, VERIF)
+    # the code under test: /repo's working tree, or a scratch copy for mutants
+    sys.path.insert(0, os.environ.get("VERIF_REPO", "/repo"))
     import argparse
     ap = argparse.ArgumentParser()
     ap.add_argument("prop", nargs="?")
